@@ -285,8 +285,9 @@ func runC19(c *Ctx) {
 				continue
 			}
 			// lookahead-heavy tail for text
-			if !binary && i%3 == 0 {
-				data = append(data, []byte(" +inf '''a''' '''b''' x::{{aGk=}} null.int $ion_symbol_table::{symbols:[\"q\"]} $10 1.5e0\r\n")...)
+			if !binary && i%3 != 1 {
+				// lookahead-heavy tokens, and CR LF pairs whose folding is visible in the value
+				data = append(data, []byte(" +inf '''a''' '''b''' x::{{aGk=}} null.int '''l1\r\nl2\rl3\n''' {{'''c1\r\nc2'''}} /* c\r\n */ $ion_symbol_table::{symbols:[\"q\"]} $10 // c\r\n 1.5e0\r\n")...)
 			}
 			hx := hex.EncodeToString(data)
 			fam := "text"
